@@ -226,6 +226,19 @@ type TaggedUnexported struct {
 // Touch keeps the unexported fields from being reported unused.
 func (t *TaggedUnexported) Touch() { t.etag, t.count = "x", 1; t.pending = nil; t.hiddenInner.Q++ }
 
+// Registered types in embedded position: the field is named after the type and
+// carries the type's registered schema and codec.
+type EmbedsTime struct {
+	time.Time
+	ID int64 `json:"id"`
+}
+
+type EmbedsNullMid struct {
+	ID int64 `json:"id"`
+	null.String
+	Tail float64 `json:"tail"`
+}
+
 type Embeds struct {
 	Inner
 	X int64 `json:"x"`
@@ -313,6 +326,8 @@ func init() {
 	reg[Omit]("Omit", true)
 	reg[Skips]("Skips", true)
 	reg[Embeds]("Embeds", true)
+	reg[EmbedsTime]("EmbedsTime", true)
+	reg[EmbedsNullMid]("EmbedsNullMid", true)
 	reg[TaggedUnexported]("TaggedUnexported", true)
 	reg[ReuseTwice]("ReuseTwice", true)
 	reg[ReuseDeep]("ReuseDeep", true)
